@@ -98,6 +98,17 @@ func init() {
 		"math.Cosh": func(ex *Exec, _ *ssa.Function, a []Value, _ ssa.Instruction) Value { return ex.mHyp("cosh", a[0].(F)) },
 		"math.Tanh": func(ex *Exec, _ *ssa.Function, a []Value, _ ssa.Instruction) Value { return ex.mHyp("tanh", a[0].(F)) },
 		"math.Sqrt": func(ex *Exec, _ *ssa.Function, a []Value, _ ssa.Instruction) Value { return ex.mSqrt(a[0].(F)) },
+		"math.Float64bits": func(ex *Exec, _ *ssa.Function, a []Value, _ ssa.Instruction) Value {
+			// only on constants (cache keys and the like); the bit pattern of a symbolic value is not encoded
+			x := a[0].(F)
+			switch x.T.op {
+			case "fconst":
+				return int64(math.Float64bits(x.T.f64()))
+			case "rconst":
+				return int64(math.Float64bits(ratF(x.T.rat)))
+			}
+			panic(&GoPanic{Kind: "unsupported", Msg: "math.Float64bits of a symbolic value"})
+		},
 		"math.Signbit": func(ex *Exec, _ *ssa.Function, a []Value, _ ssa.Instruction) Value {
 			// bit-precise mode: the IEEE sign bit (distinguishes -0 from +0); real-number model: x < 0 (no signed zero)
 			x := a[0].(F)
